@@ -129,6 +129,7 @@ def main(argv=None) -> int:
     violations: List[Dict[str, Any]] = []
     harness_errors: List[str] = []
     undecided: List[str] = []
+    vacuous: List[str] = []
     discharged = 0
     replays_run = 0
     os.makedirs(os.path.join(VERIF, "replays"), exist_ok=True)
@@ -144,8 +145,10 @@ def main(argv=None) -> int:
             else:
                 harness_errors.append("%s: reachability twin came back %s (vacuous harness?)" % (o["id"], st))
             continue
-        if st == "confirmed":
+        if st == "confirmed" or (st == "vacuous" and o.get("allow_vacuous")):
             discharged += 1
+            if st == "vacuous":
+                vacuous.append(o["id"])
         elif st == "refuted":
             nrep += 1
             rec = {
@@ -160,6 +163,8 @@ def main(argv=None) -> int:
             }
             if o["kind"] != "ch" and r.get("replay_module"):
                 rec["module"], rec["func"] = r["replay_module"], r["replay_func"]
+                if r.get("replay_params") is not None:
+                    rec["params"] = r["replay_params"]
             path = os.path.join(VERIF, "replays", "%s-%d.json" % (pid, nrep))
             with open(path, "w") as fd:
                 json.dump(rec, fd, indent=1)
@@ -233,6 +238,8 @@ def main(argv=None) -> int:
             "obligations": len(obls),
             "discharged": discharged,
             "undecided": undecided,
+            "vacuous_instances": len(vacuous),
+            "vacuous_note": "instances of an accept/reject family in which no string satisfies the precondition (e.g. no character at that position yields a valid query): exhausted, nothing to assert",
             "exhaustive": bool(obls) and discharged == len(obls),
             "explanation": info.get("explanation", ""),
             "functions_encoded": info.get("functions", []),
